@@ -5,6 +5,7 @@
   cli.py replay <replay.json>
   cli.py minimise <replay.json> <budget_s>
   cli.py selftest determinism [n]
+  cli.py conformance [n]       (informational: stubs vs real processes)
   cli.py worker ...            (internal)
 """
 import json
@@ -58,6 +59,10 @@ def main(argv):
             spec = json.load(f)
         print('CHAIN ' + json.dumps([c18.chain_of(spec)[0], None]))
         return 0
+    if cmd == 'conformance':
+        _reexec_with_fixed_hashseed()
+        from dst import conformance
+        return conformance.main(argv[2:])
     if cmd == 'selftest':
         from dst import selftest
         return selftest.main(argv[2:])
